@@ -110,6 +110,15 @@ func writes(c pgcheck.ColCfg, k int, v, v2 []byte, thorough bool) []pgcheck.Stmt
 	}
 	out = append(out, pgcheck.Mk("ext-insert-binary-param", "", true, true,
 		sess.Ext("", "insert into t (id, plain, c) values ($1, $2, $3)", [][]byte{pgcheck.I4(k), []byte("pb"), pgcheck.BinParam(c.Shadow, v)}, []int16{0, 0, 1}, nil, nil), v))
+	// multi-row VALUES made of placeholders (text and mixed formats)
+	out = append(out, pgcheck.Mk("ext-insert-two-rows-params", "", true, true,
+		sess.Ext("", "insert into t (id, plain, c) values ($1, $2, $3), ($4, $5, $6)",
+			[][]byte{pgcheck.I4(k), []byte("r1"), pgcheck.TextParams(c.Shadow, v)[0], pgcheck.I4(k + 100), []byte("r2"), pgcheck.TextParams(c.Shadow, v2)[0]}, nil, nil, nil), v, v2))
+	out = append(out, pgcheck.Mk("ext-insert-two-rows-params-binary", "", true, true,
+		sess.Ext("", "insert into t (id, plain, c) values ($1, $2, $3), ($4, $5, $6)",
+			[][]byte{pgcheck.I4(k), []byte("b1"), pgcheck.BinParam(c.Shadow, v), pgcheck.I4(k + 100), []byte("b2"), pgcheck.BinParam(c.Shadow, v2)}, []int16{0, 0, 1, 0, 0, 1}, nil, nil), v, v2))
+	out = append(out, pgcheck.Mk("ext-insert-schema-order-params", "", true, true,
+		sess.Ext("", "insert into t values ($1, $2, $3)", [][]byte{pgcheck.I4(k), []byte("so"), pgcheck.TextParams(c.Shadow, v)[0]}, nil, nil, nil), v))
 	out = append(out, pgcheck.Mk("ext-update-text-param", "", true, true,
 		sess.Ext("", "update t set c = $1 where id = $2", [][]byte{pgcheck.TextParams(c.Shadow, v)[0], pgcheck.I4(k - 1)}, nil, nil, nil), v))
 	// named statement parsed once and executed twice with different values
@@ -186,7 +195,7 @@ func buildStmt(c pgcheck.ColCfg, h hist, vals [][]byte, thorough bool) (pgcheck.
 			return w, true
 		}
 	}
-	for _, rd := range reads(c, h.K, v, thorough) {
+	for _, rd := range reads(c, 1, v, thorough) { // reads address the first row written in the session
 		if rd.Kind == h.Kind {
 			return rd, true
 		}
